@@ -40,6 +40,7 @@ struct verif_gate {
     int modules_built;      /* compile_modules (cc on imported C modules; runs before the shadow gate by design) */
     int executed;           /* vm_execute / vm_call_function */
     int main_executed;      /* vm_execute specifically (count) */
+    int init_runs;          /* how often the module's __init__ (global initialisers) is run: vm_execute runs it itself (vm.c), a direct vm_call_function by a launcher runs it again (C10.init.once) */
     int diag_written;       /* llm_emit_diags_*: diagnostics file, not an artifact */
     /* run_shadow_tests bookkeeping (C06.loop): set by the ghost statements of contracts/loops/eval.c.shadow.loops */
     int sh_any_failed;        /* some evaluated shadow body left the failure counter > 0 */
@@ -61,7 +62,7 @@ extern struct verif_gate __verif_gate;
 #define GATE_OPEN (!GATE_FAILED)
 #define GATE_NO_EFFECT (!G.artifact_written && !G.cc_invoked && !G.executed && !G.transpiled)
 /* initial ghost state of an enforced driver function */
-#define GATE_INIT (GATE_OPEN && GATE_NO_EFFECT && !G.modules_built && !G.main_executed && !G.diag_written && \
+#define GATE_INIT (GATE_OPEN && GATE_NO_EFFECT && !G.modules_built && !G.main_executed && !G.init_runs && !G.diag_written && \
                    !G.exited && G.tc_calls == 0 && G.shadow_calls == 0 && G.cf_calls == 0)
 /* precondition of every writer / executor, checked at the call */
 #define GATE_REQUIRE(what) __CPROVER_assert(GATE_OPEN, "GATE " what " is reached only if no phase has failed")
@@ -181,13 +182,13 @@ const char *vm_error_string(VmResult result) { (void)result; return (const char 
 /* runs the program: result is the ghost input __verif_vm_r (arbitrary) */
 VmResult vm_execute(VmState *vm)
 {
-    (void)vm; GATE_REQUIRE("vm_execute"); G.executed = 1; G.main_executed++;
+    (void)vm; GATE_REQUIRE("vm_execute"); G.executed = 1; G.main_executed++; G.init_runs++;
     return (VmResult)__verif_vm_r;
 }
 /* runs one function of the program (__init__ in the wrapper) */
 VmResult vm_call_function(VmState *vm, uint32_t fn_idx, NanoValue *args, uint16_t arg_count)
 {
-    (void)vm; (void)fn_idx; (void)args; (void)arg_count; GATE_REQUIRE("vm_call_function"); G.executed = 1;
+    (void)vm; (void)fn_idx; (void)args; (void)arg_count; GATE_REQUIRE("vm_call_function"); G.executed = 1; G.init_runs++;
     VmResult r = (VmResult)nondet_int(); if (r != VM_OK) G.init_failed = 1; return r;
 }
 /* top of the VM stack: ghost input (arbitrary, never assigned) */
